@@ -230,12 +230,13 @@ def tagId : Tag → String
   | .countPrecondition => "count-missing-swamp-error"
   | .setErrDup => "set-error-entry-duplicated"
   | .zeroLikeDropped => "zero-like-reloads-void"
+  | .resurrected => "deleted-key-resurrected"
 
 /-- attribution of a visible deviation: the most specific mechanism exercised in the step -/
 def tagPrio : Tag → Nat
   | .u32delDeadlock => 0 | .u32delNonSlice => 1 | .hiddenSlice => 2 | .voidNoClear => 3 | .sliceMerge => 4
   | .incFailTrace => 5 | .inflightReuse => 6 | .tsSubSecond => 7 | .metaNoCompare => 8 | .setErrDup => 9
-  | .arekPrecondition => 10 | .countPrecondition => 11 | .zeroLikeDropped => 12 | .emptyLive => 13
+  | .arekPrecondition => 10 | .countPrecondition => 11 | .zeroLikeDropped => 12 | .emptyLive => 13 | .resurrected => 0
   | .stickyFlags => 14
 
 def pickTag (tags : List Tag) : Option Tag :=
